@@ -165,8 +165,8 @@ PROPERTIES = {
         "level": "other",
         "verus_units": ["leaves", "decbin", "decbin128", "parsetop"],
         "kani": ["parse::parse_u8_hex", "parse::parse_u8_oct", "parse::parse_u8_bin", "parse::parse_i8_hex", "parse::parse_error_kinds",
-                 "parse::parse_u8_dec", "parse::parse_i8_dec"],
-        "kani_thorough": [{"harness": "parse::parse_u8_dec_long", "timeout": 9000}, {"harness": "parse::parse_i8_dec_long", "timeout": 9000}],
+                 "parse::parse_u8_dec", "parse::parse_i8_dec", "parse::policy_forms_u4f4_dec", "parse::policy_forms_i4f4_hex"],
+        "kani_thorough": ["parse::policy_forms_i4f4_dec", "parse::policy_forms_u4f4_oct", {"harness": "parse::parse_u8_dec_long", "timeout": 9000}, {"harness": "parse::parse_i8_dec_long", "timeout": 9000}],
         "explanation": "TWO LAYERS.  (1) Verus, all inputs, every width: the width-specific functions of the parser - `dec_to_bin` of u8..u64 and of u128 "
                        "(decimal fraction numerator -> nbits binary places, correctly rounded ties-to-even in Round::Nearest; units decbin, decbin128), `mul_hi_lo`, "
                        "`div_tie` - and the whole per-width recombination layer of `impl_from_str!` (unit parsetop: from_str_iN / from_str_uN / get_int_fracN / "
@@ -176,8 +176,11 @@ PROPERTIES = {
                        "and the generic digit loops (iterator adapters) - which layer (1) assumes through those value functions - run for real in from_str_u8 / "
                        "from_str_i8 on EVERY byte string of at most 9 bytes (radix 2, 8, 16) resp. 6 bytes quick / 7 bytes thorough (radix 10), all nine 8-bit "
                        "layouts symbolic, against the exactly rounded value of the literal (ties to even), the overflow flag, the wrapped value and the error "
-                       "classes of a grammar written independently of the tokeniser; complete within the bound, loops closed by unwinding assertions",
-        "bounded_parts": ["tokeniser (parse_bounds) and the generic digit loops (bin/oct/hex/dec_str_int_to_bin, *_str_frac_to_bin, dec_str_frac_to_bin's digit comparison, parse_is_short): "
+                       "classes of a grammar written independently of the tokeniser; complete within the bound, loops closed by unwinding assertions; "
+                       "the policy forms of the public API (plain: overflow error; saturating: the bound on the literal's side; wrapping: the wrapped value) against the "
+                       "overflowing form on every ASCII string of at most 4 bytes, I4F4 / U4F4, radix 10 / 16 (8 in thorough)",
+        "bounded_parts": ["policy forms (impl_from_str_traits!: closures, str::starts_with): Kani on I4F4 / U4F4, strings of at most 4 bytes",
+                          "tokeniser (parse_bounds) and the generic digit loops (bin/oct/hex/dec_str_int_to_bin, *_str_frac_to_bin, dec_str_frac_to_bin's digit comparison, parse_is_short): "
                           "decided by Kani on the 8-bit instantiation only, string length <= 9 (6 / 7 for decimal); in the Verus layer they are assumed contracts over "
                           "uninterpreted value functions (ival, fround, parse_spec)"],
         "assumptions": ["unit parsetop: the leaf contracts of the digit loops and of parse_bounds are assumed (external_body, hand-declared signatures generic over the result type); "
